@@ -1,6 +1,10 @@
 """C10 — prompt-injection gates (Membrane, InnateImmunity) block every signature
 hit, stay blocked, and never crash."""
+import contextlib
 import hashlib
+import io
+import json
+import random as _random_mod
 import re
 import re._constants as SC
 import re._parser as SP
@@ -346,6 +350,31 @@ class Stub:
         return self.valid, self.err
 
 
+@contextlib.contextmanager
+def captured_stdout(loud):
+    """silent=False runs print; the sink stands in for an ordinary UTF-8 stdout (strict errors, encodes on write)"""
+    if not loud:
+        yield None
+        return
+    sink = io.TextIOWrapper(io.BytesIO(), encoding="utf-8", errors="strict", write_through=True)
+    with contextlib.redirect_stdout(sink):
+        yield sink
+
+
+def printed_bytes(sink):
+    if sink is None:
+        return 0
+    try:
+        sink.flush()
+    except Exception:       # noqa
+        pass
+    return len(sink.buffer.getvalue())
+
+
+MEM_PEEKS = ["stats", "audit", "export"]
+INN_PEEKS = ["state", "stats", "state"]
+
+
 class C10(Check):
     PID = "C10"
     HEADER = "From Verif Require Import C10.Regex C10.Model C10.Run."
@@ -376,7 +405,14 @@ class C10(Check):
             "against instances produced by a random walk through the sre parse tree, case-flipped, whitespace-varied, embedded with and "
             "without a \\w character glued to either edge, with control characters, lone surrogates and non-ASCII code points, and near "
             "misses. Contents inside Coq are <= 200 code points; 50k-deep JSON and 100k+ strings go through the implementation and the "
-            "monitor only (extra_checks). non-trivial = at least one signature matched or a request was rate-limited/replay-blocked/"
+            "monitor only (extra_checks; every second recipe with silent=False and callbacks). TRANSPARENT ASPECTS, decided per "
+            "history from a hash of the case (the model is not told; every observation must be what it is without them): 40% of the "
+            "membrane / colony / innate histories build their objects with silent=False (stdout captured by a strict UTF-8 sink: every "
+            "print path of filter, _log_result, learn_threat and check runs), 40% supply recording on_threat / on_inflammation "
+            "callbacks that also read get_statistics / get_audit_log / stats / get_inflammation_state re-entrantly, and 0..3 read-only "
+            "accessor calls (get_statistics, get_audit_log, export_antibodies; get_inflammation_state, stats) are inserted between "
+            "the operations; JSON documents ending in empty containers ([] {} [[]] ...) with JSONValidator max_depth 0..3 and 10. "
+            "non-trivial = at least one signature matched or a request was rate-limited/replay-blocked/"
             "rejected by a validator; distinct by case content")
     LEVEL_TEXT = ("Coq theorems, for all signature sets (substring and regex over an AST with literals, sets, categories, '.', sequence, "
                   "alternation, star/plus/optional/bounded repeat and \\b), thresholds, inputs, validator behaviours and operation "
@@ -411,7 +447,11 @@ class C10(Check):
                "injective on the inputs of every case",
                "time: integer ticks of 0.5 s (exact in binary64); the rate bound assumes a monotone clock",
                "JSONValidator (json.loads) and harness stub validators are oracles whose verdicts are recorded per input; "
-               "LengthValidator and CharacterSetValidator are transcribed; on_threat / on_inflammation callbacks are not supplied",
+               "LengthValidator and CharacterSetValidator are transcribed",
+               "console output (silent=False), the on_threat / on_inflammation callbacks (supplied as benign recording callbacks that "
+               "return; raising callbacks are outside the property) and the read-only accessors are not part of the model: the harness "
+               "exercises them in a share of the histories and strips them from the model's input, so any influence on a decision, "
+               "the audit trail or the statistics shows as a correspondence mismatch (and, where the property speaks, in the monitor)",
                "inputs of 50k nesting depth / 100k+ code points are run on the implementation under the monitor only, not inside Coq"]
     ASSUMPTIONS = ["contents are str", "learned/custom regex patterns are valid for re.compile (learn_threat raises re.error otherwise)",
                    "ThreatLevel has the four members SAFE..CRITICAL = 0..3 (checked: Gen_C10_ok)",
@@ -471,8 +511,37 @@ class C10(Check):
             s = s + " " + self._instance(rng.choice(pool), rng)
         return s[:MAX_COQ_LEN]
 
+    # -- aspects that must be TRANSPARENT: console output, callbacks, read-only accessors -------------
+    def _decorate(self, case):
+        """Decides, from a hash of the case (so the generator's own stream is untouched), whether the objects of a
+        history are built with silent=False (stdout captured), whether recording on_threat / on_inflammation
+        callbacks are supplied, and inserts 0..3 read-only accessor calls ("peek") between the operations.  None of
+        this is shown to the Coq model (coq_case strips it): every observation must be what it is without them."""
+        if not isinstance(case, dict) or case.get("kind") not in ("mem", "inn", "sys") or "silent" in case:
+            return case
+        h = _random_mod.Random("C10:decor:" + hashlib.sha1(json.dumps(case, sort_keys=True, default=str).encode()).hexdigest())
+        case["silent"] = h.random() >= 0.4
+        case["cb"] = h.random() < 0.4
+        ops = case["ops"]
+        for _ in range(h.choice([0, 0, 1, 2, 3])):
+            pos = h.randint(1, len(ops)) if ops else 0       # never before the first operation (scenario bookkeeping)
+            if case["kind"] == "sys":
+                ops.insert(pos, ["m", h.randrange(len(case["members"])), ["peek", h.choice(MEM_PEEKS)]])
+            else:
+                ops.insert(pos, ["peek", h.choice(MEM_PEEKS if case["kind"] == "mem" else INN_PEEKS)])
+        return case
+
+    @staticmethod
+    def _peek_mem(m, which):
+        if which == "stats":
+            m.get_statistics()
+        elif which == "audit":
+            m.get_audit_log()
+        else:
+            m.export_antibodies()
+
     # -- admit / TIGHTEN / replay of the byte-identical input ---------------------
-    MEM_TIGHTEN = ["import", "learn", "addsig", "thr"]
+    MEM_TIGHTEN =["import", "learn", "addsig", "thr"]
     INN_TIGHTEN = ["addpat", "addval"]
 
     def _unrelated_mem(self, rng, allow_rule_ops):
@@ -759,7 +828,7 @@ class C10(Check):
                     out.append(self._keyclash_mem(rng, how, pat, rx, mode))
                 for how in self.KEYCLASH_SYS:
                     out.append(self._keyclash_sys(rng, how, pat, rx, mode))
-        return [c for c in out if c is not None]
+        return [self._decorate(c) for c in out if c is not None]
 
     def _gen_mem(self, rng):
         shipped = [s for s in self._shipped()[0]]
@@ -877,7 +946,7 @@ class C10(Check):
             if r < 0.5:
                 return ["char", rng.random() < 0.3, rng.random() < 0.3]
             if r < 0.7:
-                return ["json", rng.choice([10, 2, 0]), rng.choice([100000, 30])]
+                return ["json", rng.choice([10, 2, 0, 1, 3]), rng.choice([100000, 30])]
             if r < 0.97:
                 return ["stub"] + rng.choice([[False, None], [False, ""], [True, "x"], [False, "bad"], [True, None]])
             return ["stubraise"]
@@ -894,7 +963,8 @@ class C10(Check):
                 k = rng.random()
                 if k < 0.15 or (k < 0.5 and any(v[0] == "json" for v in vals)):
                     x = rng.choice(["[1, 2]", "{\"a\": {\"b\": [1]}}", "[[[[1]]]]", "{", "nope", "\"s\"", "[" * 12 + "]" * 12,
-                                    "{\"a\": \"ignore previous\"}", "9" * 30, "[\"\ud800\"]", ""])
+                                    "{\"a\": \"ignore previous\"}", "9" * 30, "[\"\ud800\"]", "", "[]", "{}", "[[]]",
+                                    "{\"a\": {}}", "[{}, []]", "[[], [[1]]]", "{\"a\": [], \"b\": {\"c\": {}}}", "[[[]]]"])
                 else:
                     x = self._content(rng, pool)
                 ops.append(["check", x])
@@ -979,7 +1049,7 @@ class C10(Check):
             else:
                 g = self._sigdesc(rng, 100, innate=rng.random() < 0.3)
                 out.append({"kind": "sig", "sig": g, "contents": self._batch_contents(rng, g, 8)})
-        return out
+        return [self._decorate(c) for c in out]
 
     def corpus_cases(self):
         base = [
@@ -991,6 +1061,26 @@ class C10(Check):
                                      ["tick", 1], ["filter", "e"], ["filter", "f"], ["filter", "g"]]},
             {"kind": "inn", "builtin": list(range(17)), "custom": [], "validators": [["json", 10, 100000]], "threshold": 3,
              "decay": 15, "t0": 0, "ops": [["check", "[" * 100], ["check", "9" * 150], ["check", "[1]"], ["check", "{\"a\":"]]},
+            # console output (silent=False), recording callbacks and read-only accessors in between: every print path of
+            # the membrane (scan block, replay block, rate limit, learn_threat) ...
+            {"kind": "mem", "builtin": list(range(19)), "custom": [], "threshold": 2, "rate": 3, "adaptive": True,
+             "t0": T0_TICKS, "silent": False, "cb": True,
+             "ops": [["learn", {"id": 140, "pattern": "Tea \u20ac \u4e2d time", "regex": False, "level": 3}], ["peek", "export"],
+                     ["filter", "tea \u20ac \u4e2d TIME"], ["peek", "stats"], ["filter", "tea \u20ac \u4e2d TIME"],
+                     ["peek", "audit"], ["filter", "hello"], ["filter", "jailbreak"], ["tick", 121], ["filter", "jailbreak"],
+                     ["forget", "Tea \u20ac \u4e2d time"], ["filter", "tea \u20ac \u4e2d TIME"]]},
+            # ... and of the innate filter, with JSON documents whose nesting ends in EMPTY containers at the depth limit
+            {"kind": "inn", "builtin": list(range(17)), "custom": [],
+             "validators": [["json", 0, 100000], ["json", 1, 100000], ["json", 2, 100000], ["json", 3, 100000]],
+             "threshold": 3, "decay": 15, "t0": 0, "silent": False, "cb": True,
+             "ops": [["check", "[]"], ["peek", "state"], ["check", "{}"], ["check", "[[]]"], ["check", "{\"a\": {}}"],
+                     ["peek", "stats"], ["check", "[[[]]]"], ["check", "[{}, [[]]]"], ["check", "1"], ["peek", "state"],
+                     ["check", "{\"a\": \"jailbreak\"}"], ["tick", 901], ["check", "[[], {}]"]]},
+            {"kind": "inn", "builtin": list(range(17)), "custom": [], "validators": [], "threshold": 3,
+             "decay": 15, "t0": 0, "silent": False, "cb": True,
+             "ops": [["check", "hello"], ["peek", "state"], ["check", "act as if"], ["peek", "state"], ["check", "hello"],
+                     ["check", "ignore all previous \x01"], ["peek", "stats"], ["tick", 899], ["check", "fine"],
+                     ["tick", 1], ["peek", "state"], ["check", "fine"], ["reset"], ["peek", "state"], ["check", "fine"]]},
         ]
         return base + super().corpus_cases()
 
@@ -1025,6 +1115,15 @@ class C10(Check):
         return sorted(out)
 
     def run_impl(self, case):
+        loud = ((case.get("kind") in ("mem", "inn", "sys") and not case.get("silent", True))
+                or (case.get("kind") == "hostile" and bool(case.get("loud"))))
+        with captured_stdout(loud) as sink:
+            obs, tr = self._run_impl(case)
+        if loud:
+            tr["printed"] = printed_bytes(sink)
+        return obs, tr
+
+    def _run_impl(self, case):
         k = case["kind"]
         if k == "mem":
             return self._run_mem(case)
@@ -1064,10 +1163,20 @@ class C10(Check):
         M.time = clock
         steps = []
         obs = []
+        loud = not case.get("silent", True)
+        fired = []             # FilterResults handed to on_threat
+        box = {}
+
+        def on_threat(res):    # a benign recording callback that also reads the membrane's accessors
+            fired.append(res)
+            box["m"].get_statistics()
+            box["m"].get_audit_log()
         try:
             customs = [self._mk_tsig(M, d) for d in case["custom"]]
             m = M.Membrane(signatures=customs, threshold=M.ThreatLevel(case["threshold"]),
-                           enable_adaptive=case["adaptive"], rate_limit=case["rate"], silent=True)
+                           enable_adaptive=case["adaptive"], rate_limit=case["rate"],
+                           on_threat=on_threat if case.get("cb") else None, silent=not loud)
+            box["m"] = m
             if case["builtin"] != list(range(len(B))):
                 m.signatures = [B[i] for i in case["builtin"]] + customs
             limited_log = []
@@ -1082,8 +1191,15 @@ class C10(Check):
                 kind = op[0]
                 before = m.get_audit_log()
                 st = {"op": kind, "t": clock.ticks}
+                if kind == "peek":
+                    self._peek_mem(m, op[1])
+                    after = m.get_audit_log()
+                    st["audit_ok"] = len(after) == len(before) and all(a is b for a, b in zip(before, after))
+                    steps.append(st)
+                    continue
                 if kind == "filter":
                     n0 = len(limited_log)
+                    f0 = len(fired)
                     try:
                         r = common.call_with_watchdog(lambda: m.filter(Signal(content=op[1])), 10.0)
                     except common.Hang:
@@ -1100,7 +1216,7 @@ class C10(Check):
                               limited=(limited_log[n0] if len(limited_log) > n0 else None),
                               audit_ok=(len(after) == len(before) + 1 and all(a is b for a, b in zip(before, after))
                                         and after[-1] is r),
-                              audit_hash_ok=(r.audit_hash == sha16(op[1])))
+                              audit_hash_ok=(r.audit_hash == sha16(op[1])), cb=len(fired) - f0)
                     obs.append([int(r.allowed), r.threat_level.value, len(after), stats["total_filtered"],
                                 stats["total_blocked"], stats["learned_patterns"], stats["blocked_hashes"]])
                     obs.append(ids)
@@ -1149,10 +1265,21 @@ class C10(Check):
         steps, obs = [], []
         try:
             ms, logs = [], []
-            for spec in case["members"]:
+            loud = not case.get("silent", True)
+            fired = []         # (member, FilterResult) handed to on_threat callbacks
+
+            def mk_cb(j):      # benign recording callback; reads the accessors of EVERY member of the colony
+                def on_threat(res):
+                    fired.append((j, res))
+                    for mm in ms:
+                        mm.get_statistics()
+                        mm.get_audit_log()
+                return on_threat
+            for j, spec in enumerate(case["members"]):
                 customs = [self._mk_tsig(M, d) for d in spec["custom"]]
                 m = M.Membrane(signatures=customs, threshold=M.ThreatLevel(spec["threshold"]),
-                               enable_adaptive=spec["adaptive"], rate_limit=spec["rate"], silent=True)
+                               enable_adaptive=spec["adaptive"], rate_limit=spec["rate"],
+                               on_threat=mk_cb(j) if case.get("cb") else None, silent=not loud)
                 if spec["builtin"] != list(range(len(B))):
                     m.signatures = [B[i] for i in spec["builtin"]] + customs
                 log = []
@@ -1197,8 +1324,16 @@ class C10(Check):
                 snap = snapshot(k)
                 before = m.get_audit_log()
                 st = {"op": kind, "k": k, "t": clock.ticks}
+                if kind == "peek":
+                    self._peek_mem(m, mop[1])
+                    after = m.get_audit_log()
+                    st["audit_ok"] = len(after) == len(before) and all(a is b for a, b in zip(before, after))
+                    st["others_audit_ok"] = same(snap)
+                    steps.append(st)
+                    continue
                 if kind == "filter":
                     n0 = len(logs[k])
+                    f0 = len(fired)
                     try:
                         r = common.call_with_watchdog(lambda: m.filter(Signal(content=mop[1])), 10.0)
                     except common.Hang:
@@ -1215,7 +1350,7 @@ class C10(Check):
                               limited=(logs[k][n0] if len(logs[k]) > n0 else None),
                               audit_ok=(len(after) == len(before) + 1 and all(a is b for a, b in zip(before, after))
                                         and after[-1] is r),
-                              audit_hash_ok=(r.audit_hash == sha16(mop[1])))
+                              audit_hash_ok=(r.audit_hash == sha16(mop[1])), cb=len(fired) - f0)
                     obs.append([k, int(r.allowed), r.threat_level.value, len(after), stats["total_filtered"],
                                 stats["total_blocked"], stats["learned_patterns"], stats["blocked_hashes"]])
                     obs.append(ids)
@@ -1272,8 +1407,18 @@ class C10(Check):
                                     is_regex=d["regex"], severity=d["level"])
             customs = [mk(d) for d in case["custom"]]
             vdescs = list(self._effective_validators(case["validators"]))
+            loud = not case.get("silent", True)
+            fired = []         # InflammationResponses handed to on_inflammation
+            box = {}
+
+            def on_inflammation(resp):      # a benign recording callback that also reads the accessors
+                fired.append(resp)
+                box["im"].stats()
+                box["im"].get_inflammation_state()
             im = I.InnateImmunity(patterns=customs, validators=[self._mk_validator(I, v) for v in case["validators"]],
-                                  severity_threshold=case["threshold"], inflammation_decay_minutes=case["decay"], silent=True)
+                                  severity_threshold=case["threshold"], inflammation_decay_minutes=case["decay"],
+                                  on_inflammation=on_inflammation if case.get("cb") else None, silent=not loud)
+            box["im"] = im
             if case["builtin"] != list(range(len(B))):
                 im.patterns = [B[i] for i in case["builtin"]] + customs
             # a second instance built from the SAME pattern and validator objects (own lists): what happens to it
@@ -1299,8 +1444,17 @@ class C10(Check):
                     obs.append([-4])
                     steps.append(st)
                     continue
+                if kind == "peek":          # read-only accessors: no observation of their own
+                    if op[1] == "state":
+                        s_ = im.get_inflammation_state()
+                        int(s_.level), s_.trigger_count, s_.is_in_cooldown(), list(s_.recent_alerts)
+                    else:
+                        im.stats()
+                    steps.append(st)
+                    continue
                 if kind == "check":
                     x = op[1]
+                    f0 = len(fired)
                     verdicts = []
                     for v, obj in zip(vdescs, im.validators):
                         shipped = v[0] in ("len", "char", "json")
@@ -1323,7 +1477,8 @@ class C10(Check):
                         continue
                     s = im.stats()
                     ids = self._ids(r.matched_patterns, B)
-                    st.update(allowed=bool(r.allowed), ids=ids, nerr=len(r.structural_errors), level=int(r.inflammation.level))
+                    st.update(allowed=bool(r.allowed), ids=ids, nerr=len(r.structural_errors), level=int(r.inflammation.level),
+                              cb=len(fired) - f0)
                     obs.append([int(r.allowed), len(r.structural_errors), int(r.inflammation.level), s["check_count"],
                                 s["block_count"], s["inflammation_triggers"], int(im.inflammation_state.level)])
                     obs.append(ids)
@@ -1376,6 +1531,8 @@ class C10(Check):
                     ops.append(f"STickAll {cz(op[1])}")
                 elif op[0] == "transfer":
                     ops.append(f"STransfer {cnat(op[1])} {cnat(op[2])}")
+                elif op[2][0] == "peek":
+                    pass                  # read-only accessor: not shown to the model
                 else:
                     ops.append(f"SOp {cnat(op[1])} ({mop_coq(op[2])})")
             members = ["(%s, %s, %s, %s, %s)" % (clist([cnat(i) for i in m["builtin"]]),
@@ -1402,6 +1559,8 @@ class C10(Check):
                     ops.append(f"OTick {cz(op[1])}")
                 elif o == "clear":
                     ops.append("OClearAudit")
+                elif o != "peek":         # read-only accessor: not shown to the model
+                    raise ValueError(o)
             return ("(CMem (mkMCase %s %s %s %s %s %s %s))" % (
                 clist([cnat(i) for i in case["builtin"]]), clist([self._sig_coq(d) for d in case["custom"]]),
                 cz(case["threshold"]), copt(case["rate"]), cbool(case["adaptive"]), cz(case["t0"]), clist(ops)))
@@ -1429,6 +1588,8 @@ class C10(Check):
                 ops.append("RI IReset []")
             elif o == "tick":
                 ops.append(f"RI (ITick {cz(op[1])}) []")
+            elif o != "peek":             # read-only accessor: not shown to the model
+                raise ValueError(o)
         return ("(CInn (mkICase %s %s %s %s %s %s %s))" % (
             clist([cnat(i) for i in case["builtin"]]), clist([self._sig_coq(d) for d in case["custom"]]),
             clist([vd(v) for v in self._effective_validators(case["validators"])]),
@@ -1595,6 +1756,13 @@ class C10(Check):
         if k in ("shipped", "sig"):
             ks += ["sig-match" if r else "sig-nomatch" for r in trace.get("res", [])]
             return ks
+        ks.append("silent=" + str(bool(case.get("silent", True))))
+        if trace.get("printed"):
+            ks.append("printed-to-stdout")
+        if case.get("cb"):
+            ks.append("callbacks-supplied")
+            if any(st.get("cb") for st in trace.get("steps", [])):
+                ks.append("callback-fired")
         if str(case.get("scenario", "")).startswith("keyclash:"):
             fs = [st for st in trace.get("steps", []) if st["op"] == "filter" and "allowed" in st and st.get("ids")]
             ks.append(case["scenario"] + (":first-spelling-" + ("blocks" if not fs[0]["allowed"] else "ADMITS") if fs
@@ -1672,8 +1840,10 @@ class C10(Check):
         from operon_ai.core.types import Signal
         x = self._hostile_content(case)
         tr = {"hostile": True, "len": len(x), "head": x[:40]}
+        loud = bool(case.get("loud"))      # silent=False + recording callbacks (stdout captured by run_impl)
+        fired = []
         try:
-            m = M.Membrane(silent=True)
+            m = M.Membrane(silent=not loud, on_threat=(lambda res: fired.append(res)) if loud else None)
             r = common.call_with_watchdog(lambda: m.filter(Signal(content=x)), 30.0)
             r2 = common.call_with_watchdog(lambda: m.filter(Signal(content=x)), 30.0)
             tr["mem"] = {"allowed": bool(r.allowed), "level": r.threat_level.value, "allowed2": bool(r2.allowed),
@@ -1689,7 +1859,8 @@ class C10(Check):
                   "len": lambda: I.LengthValidator(), "char": lambda: I.CharacterSetValidator()}
             rec = {"validators": vs or "default"}
             try:
-                im = I.InnateImmunity(validators=[mk[v]() for v in vs] if vs else None, silent=True)
+                im = I.InnateImmunity(validators=[mk[v]() for v in vs] if vs else None, silent=not loud,
+                                      on_inflammation=(lambda resp: fired.append(resp)) if loud else None)
                 ri = common.call_with_watchdog(lambda: im.check(x), 30.0)
                 rejected = False
                 for v in im.validators:
@@ -1738,8 +1909,8 @@ class C10(Check):
 
     def extra_checks(self):
         recipes = self.HOSTILE + (self.HOSTILE_THOROUGH if self.tier == "thorough" else [])
-        for rc in recipes:
-            case = {"kind": "hostile", "recipe": rc}
+        for i, rc in enumerate(recipes):
+            case = {"kind": "hostile", "recipe": rc, "loud": i % 2 == 1}
             obs, trace = self._safe_impl(case)
             v = self.monitor(case, obs, trace)
             if v is not None:
